@@ -9,6 +9,7 @@ import RxModel.Driver.SuiteShare
 import RxModel.Driver.SuiteMulti
 import RxModel.Driver.SuiteLocks
 import RxModel.Driver.SuiteComposite
+import RxModel.Driver.SuiteInject
 /-
   rxdriver: reads the suite file on stdin, runs the model, prints one line per
   external event — the lines the harness prints for the real code.
@@ -69,6 +70,7 @@ def runCase (c : Case) : List String :=
   | "locks" => LocksS.runLocksCase c.id (c.field "subs") c.events
   | "behaviorrace" => LocksS.runBehaviorRace c.id c.events
   | "composite" => CompS.runCompositeCase c.id c.field c.events
+  | "inject" => InjectS.runInjectCase c.id c.events
   | s => [s!"{c.id}.0 UNKNOWN-SUITE {s}"]
 
 partial def loop (h : IO.FS.Stream) (out : IO.FS.Stream) (cur : Case) : IO Unit := do
